@@ -49,6 +49,30 @@ class Outcome:
         self.counters[name] = self.counters.get(name, 0) + n
 
 
+def _library_dir():
+    import modelx
+    return os.path.dirname(os.path.abspath(modelx.__file__)) + os.sep
+
+
+def exec_case(prop, case):
+    """prop.run_case(case); an exception that escapes from INSIDE the library (innermost frame in the modelx
+    package) while the harness drives or observes the model is reported as a failure of the case, not as a
+    harness error: the harness makes the same calls on every tree, and on a tree where the property holds they
+    return.  Exceptions raised by harness code itself propagate (exit 2)."""
+    try:
+        return prop.run_case(case)
+    except Exception as exc:
+        tb = traceback.extract_tb(exc.__traceback__)
+        if tb and os.path.abspath(tb[-1].filename).startswith(_library_dir()):
+            where = [f for f in tb if "/vf/" in f.filename]
+            at = ("%s:%d %s" % (os.path.basename(where[-1].filename), where[-1].lineno, where[-1].line)) if where else "?"
+            out = Outcome()
+            out.fail("library-exception", "%s: %s escaped from %s:%d (%s) while the harness was at %s" % (
+                type(exc).__name__, str(exc)[:300], os.path.basename(tb[-1].filename), tb[-1].lineno, tb[-1].name, at))
+            return out
+        raise
+
+
 def case_hash(case):
     return hashlib.sha1(json.dumps(case, sort_keys=True, default=str).encode()).hexdigest()[:16]
 
@@ -86,7 +110,7 @@ def probe_findings(prop):
     active, regress, lines = [], [], []
     for e in load_findings(prop.ID):
         case = load_case(e["replay"])
-        out = prop.run_case(case)
+        out = exec_case(prop, case)
         if e["status"] == "known":
             if out.failure is not None:
                 lines.append("KNOWN-FINDING: property=%s %s %s" % (prop.ID, e["id"], e["title"]))
@@ -124,7 +148,7 @@ def ddmin(prop, case, failure, active, deadline):
     def still_fails(ops):
         c = dict(case, ops=ops)
         try:
-            o = prop.run_case(c)
+            o = exec_case(prop, c)
         except Exception:
             return None
         if o.failure is not None and o.failure["oracle"] == oracle \
@@ -210,10 +234,14 @@ def _worker_inner(pid, tier, seed, idx, plan, active_ids):
                     st["samples"].append(case)
 
     def one(case):
+        if st.get("stopped"):
+            # Hypothesis re-executes the example that raised; answer the same way without running it again
+            raise _Stop()
         if time.time() > deadline:
             st["budget_exhausted"] = True
+            st["stopped"] = True
             raise _Stop()
-        out = prop.run_case(case)
+        out = exec_case(prop, case)
         record(case, out)
         if out.failure is not None:
             kf = match_known(prop, active, case, out.failure)
@@ -222,6 +250,7 @@ def _worker_inner(pid, tier, seed, idx, plan, active_ids):
                 return
             small, fl = ddmin(prop, case, out.failure, active, time.time() + plan.get("shrink_wall", 45))
             st["failures"].append({"case": small, "failure": fl})
+            st["stopped"] = True
             raise _Stop()
 
     # exhaustive / enumerated part (sharded by index)
@@ -251,6 +280,7 @@ def _worker_inner(pid, tier, seed, idx, plan, active_ids):
             test()
         except _Stop:
             pass
+    st.pop("stopped", None)
     st["nontrivial"] = sorted(st["nontrivial"])
     st["wall"] = time.time() - t0
     st["idx"] = idx
@@ -309,7 +339,7 @@ def run_property(pid, tier, seed):
             if not fn.endswith(".json") or fn in listed or fn.startswith("found_"):
                 continue
             case = load_case(os.path.join(rdir, fn))
-            out = prop.run_case(case)
+            out = exec_case(prop, case)
             n_regr += 1
             if out.failure is not None and match_known(prop, active, case, out.failure) is None:
                 print("VIOLATION property=%s replay=%s" % (pid, os.path.join(rdir, fn)))
@@ -397,7 +427,15 @@ def run_replay(pid, path):
     prop = importlib.import_module("vf.props." + pid.lower())
     case = load_case(path)
     case.pop("_failure", None)
-    out = prop.run_case(case)
+    # A broken tree can make the outcome depend on object addresses (iteration over sets of objects hashed by
+    # id); a replay therefore runs the case several times from a clean session with a perturbed heap and reports
+    # the first failing run.  On a tree where the property holds every run passes.
+    junk = []
+    for attempt in range(int(os.environ.get("VERIF_REPLAY_RUNS", "6"))):
+        out = exec_case(prop, case)
+        if out.failure is not None:
+            break
+        junk.append([object() for _ in range(997 * (attempt + 1))])
     if out.failure is None:
         print("replay passes: %s" % path)
         return 0
